@@ -149,6 +149,8 @@ impl CountVectorizerParams {
             }
             Tokenizer::Regex(regex_str) => {
                 self.0.split_regex_expr = regex_str.to_string();
+                // the regex replaces a previously set function
+                self.0.tokenizer_function = None;
                 self.0.tokenizer_deserialization_guard = false;
             }
         }
@@ -223,6 +225,9 @@ impl ParamGuard for CountVectorizerParams {
             Err(PreprocessingError::FlippedDocumentFrequencies(
                 min_freq, max_freq,
             ))
+        } else if self.0.tokenizer_deserialization_guard && self.0.tokenizer_function.is_none() {
+            // deserialized parameters whose tokenizer function could not be restored
+            Err(PreprocessingError::TokenizerNotSet)
         } else {
             *self.0.split_regex.borrow_mut() = Some(SerdeRegex::new(&self.0.split_regex_expr)?);
 
